@@ -406,8 +406,9 @@ impl NodeExec {
                 };
                 VNode::incoming(&mut self.node, peer_of(p), ConnectionId::new_unchecked(0), VIncoming::from_parts(client, server));
             }
-            ["sending", p, st] => {
+            ["sending", p, src, st] => {
                 let Some(p) = num(p) else { return "bad-op".into() };
+                let Some(src) = num(src) else { return "bad-op".into() };
                 let now = v::clock::Instant::now();
                 let (kind, c) = st.split_once(':').unwrap_or((st, "0"));
                 let Some(c) = num(c) else { return "bad-op".into() };
@@ -420,7 +421,7 @@ impl NodeExec {
                     "failed" => SendingState::Failed(c),
                     _ => return "bad-op".into(),
                 };
-                VNode::sending_state_changed(&mut self.node, peer_of(p), ConnectionId::new_unchecked(0), state);
+                VNode::sending_state_changed(&mut self.node, peer_of(p), ConnectionId::new_unchecked(src as usize), state);
             }
             ["newblocks", b] => {
                 let Some(b) = pairs(b) else { return "bad-op".into() };
